@@ -117,14 +117,14 @@ bool FunctionCompiler::compile()
 
 //  s << "/tmp/" C_FC_PREFIX << s_function_counter << "." << numberForCounter;
 
-s << pTemp << "/" << C_FC_PREFIX << s_function_counter;
+s << pTemp << "/" << C_FC_PREFIX << getpid() << "_" << s_function_counter;
 
   s_function_counter++;
   struct stat dummy_stat;
   while /*(fexists((s.str()+ext).c_str()) || fexists((s.str()+".c").c_str()))*/ 
   (stat((s.str()+ext).c_str(), &dummy_stat) == 0 || stat((s.str()+".c").c_str(), &dummy_stat) == 0) {
     s.seekp(0);
-    s << pTemp << "/" << C_FC_PREFIX << s_function_counter;
+    s << pTemp << "/" << C_FC_PREFIX << getpid() << "_" << s_function_counter;
     s_function_counter++;
     MSG_DEBUG("FunctionCompiler::compile", "counter for existing source files in " << pTemp <<  ":" << s_function_counter);
   }
